@@ -172,11 +172,17 @@ def eraseCustom (cs : List (Ty × Custom)) (t : Ty) : List (Ty × Custom) := cs.
 
 def setCustom (cs : List (Ty × Custom)) (t : Ty) (c : Custom) : List (Ty × Custom) := (t, c) :: eraseCustom cs t
 
-def findProp (ps : List Proposal) (id : Nat) : Option Proposal := ps.find? (fun p => p.id == id)
+def findProp : List Proposal → Nat → Option Proposal
+  | [], _ => none
+  | p :: r, id => if p.id == id then some p else findProp r id
 
-def putProp (ps : List Proposal) (q : Proposal) : List Proposal := ps.map (fun p => if p.id == q.id then q else p)
+def putProp : List Proposal → Proposal → List Proposal
+  | [], _ => []
+  | p :: r, q => (if p.id == q.id then q else p) :: putProp r q
 
-def dropProp (ps : List Proposal) (id : Nat) : List Proposal := ps.filter (fun p => !(p.id == id))
+def dropProp : List Proposal → Nat → List Proposal
+  | [], _ => []
+  | p :: r, id => if p.id == id then dropProp r id else p :: dropProp r id
 
 def sumAmt : List Dep → Nat
   | [] => 0
@@ -427,25 +433,37 @@ def activate (s : State) (p : Proposal) : State :=
            inactive := removeQ (p.depositEnd, p.id) s.inactive,
            active := insertQ (s.time + vp, p.id) s.active }
 
+/-- `proposal.GetMinDepositFromParams(params)` -/
+def defaultMin (s : State) (expedited : Bool) : Nat :=
+  if expedited then s.params.expMinDeposit else s.params.minDeposit
+
+/-- the `MinDepositRatio` test of `AddDeposit` -/
+def tooSmall (s : State) (p : Proposal) (amt : Nat) : Bool :=
+  s.params.minDepositRatio != 0 && (amt == 0 || amt < mulTrunc (defaultMin s p.expedited) s.params.minDepositRatio)
+
+/-- the writes of a successful `AddDeposit`: bank transfer, total, activation test, deposit record -/
+def depositEffect (s : State) (p : Proposal) (who : Addr) (amt : Nat) : State :=
+  let p1 := { p with total := p.total + amt }
+  let s1 := { s with bal := setBal s.bal who (getBal s.bal who - amt), gov := s.gov + amt, props := putProp s.props p1 }
+  let s2 := if p1.status == .deposit && reaches p1.total (minForMsgs s.custom (defaultMin s p.expedited) p1.msgs)
+            then activate s1 p1 else s1
+  { s2 with deps := addDep s2.deps p.id who amt, paid := s2.paid ++ [⟨p.id, who, amt⟩] }
+
 /-- `AddDeposit` (fx wrapper).  `.error` = the message fails and nothing is written. -/
 def addDeposit (s : State) (pid : Nat) (who : Addr) (amt : Nat) : Except String State :=
   match findProp s.props pid with
   | none => .error "err:notfound"
   | some p =>
     if !(p.status == .deposit || p.status == .voting) then .error "err:inactive" else
-    let dflt := if p.expedited then s.params.expMinDeposit else s.params.minDeposit
-    if s.params.minDepositRatio != 0 && (amt == 0 || amt < mulTrunc dflt s.params.minDepositRatio) then .error "err:small" else
+    if tooSmall s p amt then .error "err:small" else
     if getBal s.bal who < amt then .error "err:funds" else
-    let p1 := { p with total := p.total + amt }
-    let s1 := { s with bal := setBal s.bal who (getBal s.bal who - amt), gov := s.gov + amt, props := putProp s.props p1 }
-    let s2 := if p1.status == .deposit && reaches p1.total (minForMsgs s.custom dflt p1.msgs) then activate s1 p1 else s1
-    .ok { s2 with deps := addDep s2.deps pid who amt, paid := s2.paid ++ [⟨pid, who, amt⟩] }
+    .ok (depositEffect s p who amt)
 
 /-- `MsgSubmitProposal` -/
 def submit (s : State) (proposer : Addr) (msgs : List Msg) (initial : Nat) (expedited : Bool) : Except String State :=
   if !checkMsgs msgs then .error "err:type" else
-  let dflt := if expedited then s.params.expMinDeposit else s.params.minDeposit
-  if s.params.minInitialDepositRatio != 0 && (initial == 0 || initial < mulRound dflt s.params.minInitialDepositRatio) then
+  if s.params.minInitialDepositRatio != 0 &&
+      (initial == 0 || initial < mulRound (defaultMin s expedited) s.params.minInitialDepositRatio) then
     .error "err:small" else
   if !msgs.all (·.wellFormed) then .error "err:msg" else
   let p : Proposal := { id := s.nextId, msgs := msgs, proposer := proposer, status := .deposit, total := 0,
